@@ -181,6 +181,40 @@ func genC16(tier string, r *rng) {
 			containers("", c.der(b, false, nil), k)
 			k++
 		}
+		// insertions / deletions inside the base point at every structural boundary and at random offsets
+		ins := func(b []byte, at int, extra ...byte) []byte {
+			o := append([]byte{}, b[:at]...)
+			o = append(o, extra...)
+			return append(o, b[at:]...)
+		}
+		for _, base := range [][]byte{unc, cmpGood} {
+			offs := []int{1, 2, len(base) / 2, len(base) - 1}
+			if len(base) > 1+c.flen {
+				offs = append(offs, 1+c.flen, 1+c.flen-1, 1+c.flen+1)
+			}
+			for k2 := 0; k2 < 6; k2++ {
+				offs = append(offs, 1+r.intn(len(base)-1))
+			}
+			for _, at := range offs {
+				for _, extra := range [][]byte{{0}, {0xff}, gx, {base[at%len(base)]}} {
+					d := c.der(ins(base, at, extra...), false, nil)
+					emitP("", d)
+					if k%3 == 0 {
+						containers("", d, k)
+					}
+					k++
+				}
+				if at < len(base)-1 {
+					d := c.der(append(append([]byte{}, base[:at]...), base[at+1:]...), false, nil) // delete one byte
+					emitP("", d)
+				}
+			}
+		}
+		// the same for the coefficients
+		for _, at := range []int{0, 1, c.flen / 2, c.flen - 1, c.flen} {
+			emitP("", c.der(unc, false, func(p *asn1struct.ECParameters) { p.Curve.A = ins(p.Curve.A, at, 0) }))
+			emitP("", c.der(unc, false, func(p *asn1struct.ECParameters) { p.Curve.B = ins(p.Curve.B, at, 0) }))
+		}
 		// single-bit flips of every component
 		flip := func(name string, l int, apply func(p *asn1struct.ECParameters, byteIdx int, bit uint)) {
 			for bit := r.intn(step); bit < l*8; bit += step {
